@@ -71,6 +71,9 @@ pub proof fn lemma_filter_range_size()
         fbb_wf(final(self)),
         // builder and reader agree on offset >> 11:
         block_offset / (FILTER_RANGE_SIZE_BYTES as usize) <= old(self).filters@.len() ==> final(self).filters@ == old(self).filters@ && final(self).keys@ == old(self).keys@, // [no-new-filter-within-range]
+        // (sizes: at most one non-empty filter is added)
+        concat_filters(final(self).filters@, final(self).filters@.len() as int).len()
+            <= concat_filters(old(self).filters@, old(self).filters@.len() as int).len() + 0x1000_0100,
         block_offset / (FILTER_RANGE_SIZE_BYTES as usize) > old(self).filters@.len() ==> {
             &&& final(self).filters@.len() == block_offset / (FILTER_RANGE_SIZE_BYTES as usize) // [one-filter-per-2KiB-range]
             &&& forall|i: int| 0 <= i < old(self).filters@.len() ==> final(self).filters@[i] == old(self).filters@[i]
@@ -91,6 +94,9 @@ pub proof fn lemma_filter_range_size()
                 fbb_wf(self),
                 self.filters@.len() >= f0.len(),
                 self.filters@.len() == f0.len() ==> self.filters@ == f0 && self.keys@ == k0,
+                concat_filters(self.filters@, self.filters@.len() as int).len() <= concat_filters(f0, f0.len() as int).len() + 0x1000_0100,
+                self.filters@.len() > f0.len() ==> concat_filters(self.filters@, self.filters@.len() as int).len()
+                    == concat_filters(f0, f0.len() as int).len() + self.filters@[f0.len() as int]@.len() && self.filters@[f0.len() as int]@.len() <= 0x1000_0100,
                 self.filters@.len() > f0.len() ==> {
                     &&& self.filters@.len() <= filter_index
                     &&& forall|i: int| 0 <= i < f0.len() ==> self.filters@[i] == f0[i]
@@ -99,6 +105,15 @@ pub proof fn lemma_filter_range_size()
                     &&& self.keys@.len() == 0
                 },
             decreases filter_index - self.filters@.len(),
+//@loop-start 1
+            let ghost fs1 = self.filters@;
+            let ghost n1 = fs1.len() as int;
+//@loop-end 1
+            proof {
+                let fs2 = self.filters@;
+                lemma_concat_filters_prefix(fs1, fs2, n1);
+                assert(concat_filters(fs2, n1 + 1) == concat_filters(fs2, n1) + fs2[n1]@);
+            }
 //@endfn
 //@endimpl
 
@@ -122,10 +137,14 @@ pub proof fn lemma_filter_range_size()
             + offsets_enc(final(self).filters@, final(self).filters@.len() as int)
             + le_enc(concat_filters(final(self).filters@, final(self).filters@.len() as int).len(), 4)
             + seq![FILTER_RANGE_SIZE_EXPONENT], // [filter-block-layout]
+        // (size: the old filters, at most one new filter, one offset word per filter, the trailer)
+        r@.len() <= concat_filters(old(self).filters@, old(self).filters@.len() as int).len() + 0x1000_0100 + 4 * (old(self).filters@.len() + 1) + 5,
 //@before /let mut results: Vec<u8> = vec!\[\];/
         proof {
             let n0 = old(self).filters@.len() as int;
             lemma_concat_filters_prefix(old(self).filters@, self.filters@, n0);
+            lemma_offsets_enc_len(self.filters@, self.filters@.len() as int);
+            broadcast use group_le;
         }
 //@loop 1 iter=it
             invariant
@@ -143,6 +162,14 @@ pub proof fn lemma_filter_range_size()
 //@endfn
 //@endimpl
 
+pub proof fn lemma_offsets_enc_len(fs: Seq<Vec<u8>>, n: int)
+    requires 0 <= n <= fs.len()
+    ensures offsets_enc(fs, n).len() == 4 * n
+    decreases n
+{
+    broadcast use group_le;
+    if n > 0 { lemma_offsets_enc_len(fs, n - 1); }
+}
 pub proof fn lemma_concat_filters_prefix(a: Seq<Vec<u8>>, b: Seq<Vec<u8>>, n: int)
     requires 0 <= n <= a.len(), n <= b.len(), forall|i: int| 0 <= i < n ==> a[i] == b[i]
     ensures concat_filters(a, n) == concat_filters(b, n), offsets_enc(a, n) == offsets_enc(b, n)
